@@ -88,11 +88,11 @@ package literal
 //@ trusted func runeSliceToBytes
 //@   ensures len(result) == rsbLen(runes) && off(result) == 0 && (len(result) == 0 || fresh(result))
 //@ trusted func (*Extractor).expandCaseFoldLiteral
-//@   ensures result != nil
+//@   ensures result != nil && fresh(result) && (len(result.literals) == 0 || fresh(result.literals))
 //@ trusted func (*Extractor).extractPrefixesConcat
 //@   ensures result != nil
 //@ trusted func (*Extractor).expandCharClass
-//@   ensures result != nil
+//@   ensures result != nil && fresh(result) && (len(result.literals) == 0 || fresh(result.literals))
 
 //@ func (*Seq).Len
 //@   props C17
@@ -186,3 +186,16 @@ package literal
 //@   loop 1: invariant forall i :: 0 <= i && i <= rangeindex ==> isPre(s.literals[i].Bytes, old(s.literals[i].Bytes)) && len(s.literals[i].Bytes) == ite(old(len(s.literals[i].Bytes)) > e.config.MaxLiteralLen, e.config.MaxLiteralLen, old(len(s.literals[i].Bytes))) && (s.literals[i].Complete <==> (old(s.literals[i].Complete) && old(len(s.literals[i].Bytes)) <= e.config.MaxLiteralLen))
 //@   loop 1: invariant forall i :: rangeindex < i && i < len(s.literals) ==> sameslice(s.literals[i].Bytes, old(s.literals[i].Bytes)) && s.literals[i].Complete == old(s.literals[i].Complete)
 //@   loop 1: decreases rangelen - rangeindex
+
+// what one element of a concatenation contributes to the cross product: a literal coming out of a counted repetition
+// x{n,m} stands for the FIRST copy only, so it may stay complete only when exactly one copy is possible
+//@ trusted func (*Extractor).expandAlternateContribution
+//@   ensures result != nil ==> fresh(result) && (len(result.literals) == 0 || fresh(result.literals))
+//@ func (*Extractor).concatSubContribution
+//@   props C17
+//@   opt elems_nonnil=regexp/syntax.Regexp
+//@   requires e != nil && sub != nil
+//@   ensures (sub.Op == 17 && result != nil && !(sub.Min == 1 && sub.Max == 1)) ==> (forall i :: 0 <= i && i < len(result.literals) ==> !result.literals[i].Complete)
+//@   ensures result != nil ==> fresh(result) && (len(result.literals) == 0 || fresh(result.literals))
+//@   loop 1: invariant -1 <= rangeindex && rangeindex < rangelen && rangelen == len(inner.literals) && inner != nil
+//@   loop 1: invariant forall i :: 0 <= i && i <= rangeindex ==> !inner.literals[i].Complete
